@@ -308,7 +308,7 @@ func runC08Round(dir string, g *rand.Rand, creators, nplugins, perCreator, faili
 			time.Sleep(rawDelay)
 			err := raw.Dial(rt.Sock, nil)
 			if err == nil {
-				err = raw.Register(60 * time.Second)
+				err = raw.Register(15 * time.Second) // beyond that the round says nothing about this plugin (inconclusive)
 			}
 			if err != nil {
 				rawMu.Lock()
